@@ -164,7 +164,10 @@ class Case:
         D = [d + abs(x - y) for d, x, y in zip(D, rr, ref)]
         return [float(x) for x in ref], [float(d) + 0.125 * U * float(t) for d, t in zip(D, terms)]
 
-    def judge(self, got, ref, D, what, sig, tag, V, K=4096.0):
+    def judge(self, got, ref, D, what, sig, tag, V, K=4096.0, line=None):
+        """line = (state the solver started from, total time, per-step time, e, a, mu): lets a violation be recognised as the solver's
+        'straight-line motion' fallback (velocity unchanged, x = x0 + v0 T) taken because the upper end dt/q of the hyperbolic
+        bisection bracket overflows the Stumpff functions (sqrt(-beta) dt/q > 700)"""
         if any(v != v or abs(v) == math.inf for v in got):
             V.append((sig + ":nan", "%s yields non-finite coordinates %s [%s]" % (what, got, tag)))
             return
@@ -174,11 +177,20 @@ class Case:
             tol = K * D[k] + 64 * U * (sp if k < 3 else sv)
             self.worst = max(getattr(self, "worst", 0.0), abs(got[k] - ref[k]) / (D[k] + 2 * U * (sp if k < 3 else sv)))
             if abs(got[k] - ref[k]) > tol:
+                if line is not None and line[3] > 1 and math.sqrt(line[5] / abs(line[4])) * abs(line[2]) / (abs(line[4]) * (line[3] - 1)) > 700:
+                    s0, T = line[0], line[1]
+                    lin = [s0[j] + s0[j + 3] * T for j in range(3)] + list(s0[3:])
+                    lp = max(abs(v) for v in lin[:3])
+                    lv = max(abs(v) for v in lin[3:])
+                    if all(abs(got[j] - lin[j]) <= 1e-3 * (lp if j < 3 else lv) for j in range(6)):
+                        sig = "straight-line-fallback:bracket-overflow"
+                        what = what + " [= straight-line motion x0 + v0 T]"
                 V.append((sig, "%s: component %d is %r, the exact Kepler orbit gives %r (|diff| %.3g, tolerance %.3g = %g x effect of 1 ulp in the inputs) [%s]" % (what, k, got[k], ref[k], abs(got[k] - ref[k]), tol, K, tag)))
                 return
 
     def __call__(self, task):
         e, a, mu, f0, dtP, sign, steppers = task
+        a0_ = a
         rb.quiet()
         V = []
         cls = "hyperbolic" if e > 1 else "elliptic"
@@ -189,7 +201,7 @@ class Case:
         ref, D = self.reference(mu, s, dt)
         got = self.solver(mu, s, dt)
         big = "dt>P" if dtP >= 1 else "dt<P"
-        self.judge(got, ref, D, "reb_whfast_kepler_solver", "kepler-solver:%s:%s:%s" % (cls, big, "backward" if sign < 0 else "forward"), tag, V)
+        self.judge(got, ref, D, "reb_whfast_kepler_solver", "kepler-solver:%s:%s:%s" % (cls, big, "backward" if sign < 0 else "forward"), tag, V, line=(s, dt, dt, e, a, mu))
         for integ in steppers:
             if len(integ) == 3:
                 continue
@@ -199,7 +211,7 @@ class Case:
                     r2, D2 = self.reference(mu, s_in, dt)
                 else:
                     r2, D2 = ref, D
-                self.judge(out, r2, D2, "one step of %s/%s (m2=%g)" % (integ[0], integ[1], m2), "step:%s/%s:%s:%s" % (integ[0], integ[1], cls, "backward" if sign < 0 else "forward"), tag, V, K=8192.0)
+                self.judge(out, r2, D2, "one step of %s/%s (m2=%g)" % (integ[0], integ[1], m2), "step:%s/%s:%s:%s" % (integ[0], integ[1], cls, "backward" if sign < 0 else "forward"), tag, V, K=8192.0, line=(s_in, dt, dt, e, a, mu))
                 if abs(t - dt) > 4 * U * abs(dt):
                     V.append(("step:time:%s" % integ[0], "t=%r after one step of dt=%r [%s]" % (t, dt, tag)))
         # two steps with an output in between, in the deferred-synchronisation modes (the body must still be on the exact orbit)
@@ -230,7 +242,7 @@ class Case:
             out = [b.x - a.x, b.y - a.y, b.z - a.z, b.vx - a.vx, b.vy - a.vy, b.vz - a.vz]
             r2, D2 = self.reference(mu, s_in, 2 * dt)
             self.judge(out, r2, D2, "step, synchronize%s, step of %s/%s in mode %s" % (", copy" if mode.endswith("copy") else "", name, coord, mode),
-                       "two-steps:%s/%s/%s:%s" % (name, coord, mode, cls), tag, V, K=16384.0)
+                       "two-steps:%s/%s/%s:%s" % (name, coord, mode, cls), tag, V, K=16384.0, line=(s_in, 2 * dt, dt, e, a0_, mu))
         return V, getattr(self, "worst", 0.0)
 
 
